@@ -35,14 +35,15 @@ CAP = 2 ** 30
 BOUNDS = {
     "quick": dict(MaxLen=3, GCA={0, 1, 89, 90, 95, 180, 270, 275, 359}, BMax=1, MerLons={0, 95}, PoleLons={0, 217},
                   EpsSet={0, 1, 2, 3}, MaxD=7, LonStep8=4, ShiftSet8={0, 1, 8, 360, 1440, 2879, 2880, 2881, 3240, 5760},
-                  ScaleSizes={2 ** 18 - 1, 2 ** 18, 2 ** 18 + 1, 2 ** 19 + 3}),
+                  ScaleSizes={2 ** 18 - 1, 2 ** 18, 2 ** 18 + 1, 2 ** 19 + 3}, WorldLen=2, WorldScr={True}),
     "thorough": dict(MaxLen=4, GCA={0, 1, 30, 45, 89, 90, 91, 95, 135, 180, 185, 270, 275, 359},
                      BMax=2, MerLons={0, 90, 95}, PoleLons={0, 217}, EpsSet={0, 1, 2, 3}, MaxD=11, LonStep8=1,
                      ShiftSet8={0, 1, 7, 8, 360, 720, 1440, 1441, 2160, 2879, 2880, 2881, 3240, 4320, 5759, 5760, 5761, 8640},
-                     ScaleSizes={2 ** 18 - 1, 2 ** 18, 2 ** 18 + 1, 3 * 2 ** 18, 2 ** 19 + 3, 2 ** 20, 2 ** 20 + 1}),
+                     ScaleSizes={2 ** 18 - 1, 2 ** 18, 2 ** 18 + 1, 3 * 2 ** 18, 2 ** 19 + 3, 2 ** 20, 2 ** 20 + 1},
+                     WorldLen=2, WorldScr={True, False}),
 }
-MODEL_ACTIONS = ["Start", "Step", "PickFrame", "PickOpt", "PickScale", "PickGC1", "PickRS1", "PickShift", "PickCube", "PickAnchor"]
-MODEL_INVARIANTS = ["PathTheorems", "PointTheorems", "OptTheorems", "ScaleTheorems", "IsoTheorems", "ShiftTheorems", "ShiftRefines", "CubeTheorems",
+MODEL_ACTIONS = ["WorldStep", "Start", "Step", "PickFrame", "PickOpt", "PickScale", "PickGC1", "PickRS1", "PickShift", "PickCube", "PickAnchor"]
+MODEL_INVARIANTS = ["WorldFresh", "WorldTheorems", "PathTheorems", "PointTheorems", "OptTheorems", "ScaleTheorems", "IsoTheorems", "ShiftTheorems", "ShiftRefines", "CubeTheorems",
                     "AnchorTheorems"]
 ALLOW = Fraction(2, 10 ** 13)     # rounding of exact lattice / decimal inputs to doubles (<= 2.9e-14 degree per coordinate)
 EULER = ("eq2gal", "gal2eq", "eq2ec", "ec2eq", "ec2gal", "gal2ec")
@@ -716,8 +717,216 @@ def eval_scale(job):
     meta.setdefault(1, {})
     return {"c": {"kind": "scale", "sel": sel, "n": n, "m": m, "mode": "none"}, "obs": [o], "meta": meta}
 
+# ---------------------------------------------------------------------------------
+# world: sessions of calls in ONE fresh process, every call compared with the same call in another fresh process.
+# A zygote (a python started with the same sys.path, esutil.coords imported, no conversion ever called in it) forks one
+# child per program; the child runs the program's calls in order and sends back what each returned.
+_ZYG = {}
+_ZYG_CODE = ("import sys, json; sys.path[:] = json.loads(sys.argv[1])\n"
+             "from vh.adapters import c09\n"
+             "c09._zygote_main()\n")
 
-EVAL = {"scale": eval_scale, "eqn": eval_eqn, "iso": eval_iso, "isor": eval_isor, "anchor": eval_anchor, "cube": eval_cube, "rot": eval_rot,
+
+def _zygote_main():
+    import os
+    import pickle
+    import struct
+    import sys
+    import esutil.coords  # noqa  (imported, never called here)
+    fin, fout = sys.stdin.buffer, sys.stdout.buffer
+    while True:
+        head = fin.read(8)
+        if len(head) < 8:
+            return
+        prog = pickle.loads(fin.read(struct.unpack("<Q", head)[0]))
+        r, w = os.pipe()
+        pid = os.fork()
+        if pid == 0:
+            code = 1
+            try:
+                os.close(r)
+                with os.fdopen(w, "wb") as f:
+                    f.write(pickle.dumps(_world_exec(prog)))
+                code = 0
+            finally:
+                os._exit(code)
+        os.close(w)
+        with os.fdopen(r, "rb") as f:
+            data = f.read()
+        os.waitpid(pid, 0)
+        fout.write(struct.pack("<Q", len(data)) + data)
+        fout.flush()
+
+
+def _zyg_run(prog):
+    """run a program (a list of calls) in a fresh process -> per call {"err", "out"}"""
+    import json
+    import os
+    import pickle
+    import struct
+    import subprocess
+    import sys
+    z = _ZYG.get(os.getpid())
+    if z is None or z.poll() is not None:
+        z = subprocess.Popen([sys.executable, "-c", _ZYG_CODE, json.dumps(sys.path)], stdin=subprocess.PIPE, stdout=subprocess.PIPE,
+                             stderr=subprocess.DEVNULL)
+        _ZYG.clear()
+        _ZYG[os.getpid()] = z
+    data = pickle.dumps(prog)
+    z.stdin.write(struct.pack("<Q", len(data)) + data)
+    z.stdin.flush()
+    head = z.stdout.read(8)
+    if len(head) < 8:
+        raise MachineryError("world zygote died")
+    body = z.stdout.read(struct.unpack("<Q", head)[0])
+    if not body:
+        return [{"err": "ProcessDied", "out": None} for _ in prog["calls"]]
+    return pickle.loads(body)
+
+
+_FRESH = {}
+RANDCAP_N = 16
+
+
+def _fresh_ref(c, inp):
+    """what the call returns in a fresh process of its own (kept per worker: it is a function of the call alone - every
+    reference IS computed in a fresh process, only not twice for identical arguments)"""
+    import hashlib
+    h = hashlib.sha1()
+    for a in inp:
+        h.update(np.ascontiguousarray(a, dtype="f8").tobytes())
+    key = (tuple(sorted(c["si"].items())), c["b1950"], c["ang"], h.digest())
+    if key not in _FRESH:
+        if len(_FRESH) > 4000:
+            _FRESH.clear()
+        _FRESH[key] = _zyg_run({"calls": [dict(c, inp=[np.array(a) for a in inp], scr=False)]})[0]
+    return _FRESH[key]
+
+
+def _out_kind(si):
+    return "xyz" if si["name"] == "eq2xyz" else ("rad" if (si["name"] == "xyz2eq" and si["units"] == "rad") else "deg")
+
+
+def _world_exec(prog):
+    """(in the child) the calls of a program in order.  The caller re-uses ONE buffer per argument position for all calls
+    (refilled in place), checks that a call left its arguments alone, keeps a copy of what came back and then - scr -
+    overwrites the arrays it was handed with nan (results are the caller's)."""
+    bufs, outs = {}, []
+    for c in prog["calls"]:
+        src = c["inp"]
+        if isinstance(src, int):
+            src = outs[src]["out"]
+            if src is None:
+                outs.append({"err": "NoInput", "out": None})
+                continue
+        args = []
+        for pos, a in enumerate(src):
+            b = bufs.setdefault((pos, len(a)), np.empty(len(a), dtype="f8"))
+            b[:] = a
+            args.append(b)
+        keep = [a.tobytes() for a in args]
+        si = c["si"]
+        nout = 3 if si["name"] == "eq2xyz" else 2
+        try:
+            with np.errstate(all="ignore"):
+                if si["name"] == "randcap":       # the other entry point: a seeded cap, rotated into place by rotate
+                    import esutil.coords as co
+                    res = list(co.randcap(RANDCAP_N, c["ang"][0], c["ang"][1], 1.0, dorot=True, rng=np.random.RandomState(1)))
+                else:
+                    res = list(_invoke(si, tuple(args), c["b1950"], c["ang"], "f8"))
+            flat = [np.asarray(r).ravel() for r in res]
+            if len(flat) != nout or any(r.size != (len(args[0]) if args else RANDCAP_N) or r.dtype.kind != "f" for r in flat):
+                raise _Shape()
+            out = [np.array(r, dtype="f8", copy=True) for r in flat]
+            err = "none" if [a.tobytes() for a in args] == keep else "ArgumentModified"
+            if c["scr"]:
+                for r in res:
+                    if isinstance(r, np.ndarray) and r.flags.writeable:
+                        r[...] = np.nan
+            outs.append({"err": err, "out": out if err == "none" else None})
+        except Exception as e:  # noqa
+            outs.append({"err": "ShapeError" if isinstance(e, _Shape) else type(e).__name__, "out": None})
+    return outs
+
+
+def wangle(a):
+    """world angle (integer, units of 1e-7 degree) -> the double nearest to it"""
+    return float(Fraction(int(a), 10 ** 7))
+
+
+def eval_world(job):
+    steps, sels = job["steps"], job["sels"]
+    calls, owner, inputs = [], [], {}
+    for i, st in enumerate(steps):
+        fn, p = st["c"]["fn"], st["c"]["p"]
+        if fn == "rotate":
+            si, b, ang, frame = SI("rotate"), False, tuple(wangle(a) for a in p), "eq"
+        elif fn == "randcap":
+            si, b, ang, frame = SI("randcap"), False, tuple(wangle(a) for a in p), None
+        else:
+            si, b, ang, frame = sels[str(p[0])], bool(p[1]), None, job["src"][str(p[0])]
+        st0 = concretise(frame, job["pts"][frame]) if frame else St([], "deg")
+        inputs[i] = st0
+        first = len(calls)
+        calls.append({"si": si, "b1950": b, "ang": ang, "inp": [np.array(a) for a in st0], "scr": st["scr"]})
+        owner.append((i, 0))
+        if st["undo"]:
+            for nc, cand in enumerate(job["cands"], 1):
+                back = tuple(wangle(sg * p[ix - 1]) for ix, sg in cand)
+                calls.append({"si": si, "b1950": False, "ang": back, "inp": first, "scr": st["scr"]})
+                owner.append((i, nc))
+    sess = _zyg_run({"calls": calls})
+    obs, meta = [], {}
+    per = {i: {"err": "none", "fin": True, "lx": 0, "dw": 0, "ds": [], "worst": None} for i in range(len(steps))}
+    for j, (c, (i, sub), r) in enumerate(zip(calls, owner, sess)):
+        a = per[i]
+        name = c["si"]["name"]
+        if r["err"] != "none":
+            if a["err"] == "none":
+                a["err"] = r["err"]
+            continue
+        inp = c["inp"] if not isinstance(c["inp"], int) else sess[c["inp"]]["out"]
+        fresh = _fresh_ref(c, inp)
+        out = St(r["out"], _out_kind(c["si"]))
+        tr = Track(len(out[0]))
+        tr.step(name, ["none"] * len(out[0]), out)
+        a["fin"] = a["fin"] and bool(tr.fin.all())
+        a["lx"] = max(a["lx"], d9_of(tr.latx.max(), 1e-14)[0])
+        if fresh["err"] != "none":
+            dw, wi = CAP, 0
+        else:
+            d = d9_of(sep_states(out, St(fresh["out"], out.kind)))
+            wi = int(np.argmax(d))
+            dw = d[wi]
+        if dw >= a["dw"]:
+            a["dw"] = dw
+            a["worst"] = {"call": name + (str(list(c["ang"])) if c["ang"] else "") + (" (undo %d)" % sub if sub else ""), "fresh_err": fresh["err"],
+                          "session": [float(t[wi]) for t in out], "fresh": None if fresh["err"] != "none" else [float(t[wi]) for t in fresh["out"]]}
+        if sub:
+            a["ds"].append(max(d9_of(sep_states(out, inputs[i]))) if tr.fin.all() else CAP)
+    for i, st in enumerate(steps):
+        a = per[i]
+        good = a["err"] == "none" and a["fin"]
+        ds = a["ds"] if (st["undo"] and len(a["ds"]) == len(job["cands"])) else ([CAP] * len(job["cands"]) if st["undo"] else [])
+        obs.append({"k": i + 1, "err": a["err"], "fin": a["fin"], "lx": a["lx"], "dw": a["dw"] if good else CAP, "ds": ds})
+        fn, p = st["c"]["fn"], st["c"]["p"]
+        meta[i + 1] = {"name": fn if fn != "conv" else sels[str(p[0])]["name"], "worst": a["worst"], "err": a["err"], "polar": False}
+    c = {"kind": "world", "steps": steps, "tol9": job["tol9"], "rottol9": job["rottol9"]}
+    return {"c": c, "obs": obs, "meta": meta}
+
+
+def world_text(job):
+    out = []
+    for st in job["steps"]:
+        fn, p = st["c"]["fn"], st["c"]["p"]
+        t = "rotate(%s)" % ", ".join(repr(wangle(a)) for a in p) if fn == "rotate" else \
+            "randcap(%d, %r, %r, 1.0, dorot=True, rng=RandomState(1))" % (RANDCAP_N, wangle(p[0]), wangle(p[1])) if fn == "randcap" else \
+            "%s(%s)" % (job["sels"][str(p[0])]["name"], "b1950=True" if p[1] else "")
+        out.append(t + ("+undo" if st["undo"] else "") + ("+scribble" if st["scr"] else ""))
+    return " ; ".join(out)
+
+
+EVAL = {"world": eval_world, "scale": eval_scale, "eqn": eval_eqn, "iso": eval_iso, "isor": eval_isor, "anchor": eval_anchor, "cube": eval_cube, "rot": eval_rot,
         "shift": eval_shift, "shiftr": eval_shiftr, "xyz": eval_xyz}
 
 
@@ -807,6 +1016,8 @@ def raw_sig(job, meta, clause, k):
         if clause == "no_error":
             return ["eq2xyz"], clause, m.get("err", "x:error").split(":")[-1]
         return ["eq2xyz"], clause, "pole" if m.get("polar") else "generic"
+    if kind == "world":
+        return [m.get("name", "rotate")], clause, (m.get("err") if clause == "no_error" else "session")
     if kind == "scale":                            # class: how many blocks of 2^18 points the array spans
         nblk = (job["n"] + 2 ** 18 - 1) // 2 ** 18
         return [job["fn"] if job["sel"] == 0 else job["si"]["name"]], clause, "large_array:%s" % ("1_block" if nblk == 1 else "several_blocks")
@@ -853,6 +1064,14 @@ def describe(job, rec, k, clause):
         return "shiftlon/shiftra(lon=%r, mode=%s, shift=%r) returned %s (err=%s) via %s: %s" % (
             m["lon"], m["mode"], m["s"], None if m["ret"] is None else float.fromhex(m["ret"]), o.get("err"), m["members"],
             {kk: vv for kk, vv in o.items() if kk not in ("k", "mode", "err")})
+    if kind == "world":
+        w = m.get("worst") or {}
+        return ("session of %d steps in ONE fresh process [%s], each call on the same %d points: step %d (%s): err=%s fin=%s lat_excess=%se-9; "
+                "largest distance from what the SAME call returns in a fresh process: >%.6g deg (allowed %.6g) at call %s: session %s, "
+                "fresh %s (fresh err=%s); distance from the input after each candidate inverse (1e-9 deg): %s" % (
+                    len(job["steps"]), world_text(job), max([len(v) for v in job["pts"].values()] or [RANDCAP_N]), k, m.get("name"), o.get("err"), o.get("fin"),
+                    o.get("lx"), (o.get("dw", 0) - 1) * 1e-9, job["tol9"] * 1e-9, w.get("call"), w.get("session"), w.get("fresh"),
+                    w.get("fresh_err"), o.get("ds")))
     if kind == "scale":
         return "%s on %d points (the %d-point list repeated, one array call; options %s): %s; %s" % (
             job["fn"] if job["sel"] == 0 else job["si"]["name"], job["n"], rec["c"]["m"],
@@ -954,6 +1173,18 @@ def build_jobs(ctx, exp, parts):
         pts = frame_points(fr)
         pool = fint[fr] if rep == "int" else pts
         return pool if len(pool) <= n else rng.sample(pool, n)
+
+    if "world" in parts:
+        wrng = random.Random(ctx.seed * 1000003 + 99)
+        wpts = {}
+        for fr in frames:
+            pool = frame_points(fr)
+            wpts[fr] = wrng.sample(pool, min(len(pool), 32))
+        src = {str(k): v["src"] for k, v in sels.items()}
+        for w in exp["WORLD"]:
+            need = {"eq" if st["c"]["fn"] == "rotate" else src[str(st["c"]["p"][0])] for st in w["steps"] if st["c"]["fn"] != "randcap"}
+            jobs["world"].append({"kind": "world", "steps": w["steps"], "tol9": w["tol9"], "rottol9": w["rottol9"], "cands": info["invcands"],
+                                  "sels": selmap, "src": src, "pts": {fr: wpts[fr] for fr in sorted(need)}})
 
     if "scale" in parts:
         sizes = info["scalesizes"]
@@ -1148,9 +1379,9 @@ def validate_kernel(exp, quick):
 def run(ctx):
     sl.self_validate()
     B = BOUNDS[ctx.tier]
-    allparts = ("scale", "eqn", "iso", "anchor", "rot", "shift", "xyz")
+    allparts = ("world", "scale", "eqn", "iso", "anchor", "rot", "shift", "xyz")
     parts = tuple(p for p in allparts if not getattr(ctx, "only", None) or p in ctx.only)
-    consts = dict(B, FixedGE=True, DoExport=False)
+    consts = dict(B, FixedGE=True, DoExport=False, MemoKind="exact")
     # 1. the theorems of Frames.tla on the bounded model; the add-then-fold mechanism of shiftlon refines the specification
     r1 = ctx.tlc("FramesMC.tla", what="path equations, lattice / shift / cube / anchor theorems (exhaustive)",
                  cfg_text=cfg(constants=consts, invariants=MODEL_INVARIANTS), workers=16, require=MODEL_ACTIONS, timeout=3000)
@@ -1161,12 +1392,20 @@ def run(ctx):
                   cfg_text=cfg(constants=small, invariants=["ShiftRefines"]), workers=1, allow_violation=True, coverage=False)
     if "ShiftRefines" not in r1b.violated:
         raise MachineryError("self-test failed: ShiftRefines not violated by the deviating mechanism")
+    # 1c. the deviating world mechanisms (a memo keyed by six significant digits; a memo handing out its own storage)
+    # must violate WorldFresh; no state between calls satisfies it like the exact memo does
+    for mk, bad in (("g6", True), ("alias", True), ("none", False)):
+        rw = ctx.tlc("FramesMC.tla", what="self-test: world mechanism %r %s WorldFresh" % (mk, "violates" if bad else "satisfies"),
+                     cfg_text=cfg(constants=dict(small, FixedGE=True, MemoKind=mk), invariants=["WorldFresh"]), workers=1,
+                     allow_violation=True, coverage=False)
+        if ("WorldFresh" in rw.violated) != bad:
+            raise MachineryError("self-test failed: world mechanism %s: WorldFresh violated = %s" % (mk, rw.violated))
     # 2. export (spec -> code)
     r2 = ctx.tlc("FramesMC.tla", what="export equations, points, rows, shifts, cube triples, anchors",
                  cfg_text=cfg(constants=dict(consts, DoExport=True), next_="NextExport", constraints=["Export"]),
                  workers=1, coverage=False, timeout=3000)
     exp = r2.records
-    for tag in ("SEL", "EQN", "PTS", "OPT", "GCPTS", "RSPTS", "GCROW", "RSROW", "SHIFT", "CUBE", "ANCHOR"):
+    for tag in ("WORLD", "SEL", "EQN", "PTS", "OPT", "GCPTS", "RSPTS", "GCROW", "RSROW", "SHIFT", "CUBE", "ANCHOR"):
         if not exp.get(tag):
             raise MachineryError("nothing exported for %s" % tag)
     if len(exp["PTS"]) != 7 or len(exp["EQN"]) < 100 or len(exp["ANCHOR"]) < 48 or len(exp["CUBE"]) != 64 or len(exp["OPT"]) != 27:
@@ -1236,9 +1475,12 @@ def run(ctx):
                 "exact separation; %d anchor facts; rotate at all 64 quarter-turn triples (+-360), %d generic triples and onto both "
                 "poles for theta = 1..179 deg; "
                 "shiftlon/shiftra on every exported (lon, shift, mode) of two dyadic lattices + seeded generic doubles; eq2xyz on "
-                "the rational sphere.  A case is distinct by (equation or conversion, epoch, point or pair, call shape)." %
+                "the rational sphere; every session of <= %d steps over %d calls (rotate at 14 Euler triples with twins in the 7th-9th "
+                "digit, with / without undoing; every conversion x epoch; randcap(dorot=True) at twin declinations; results scribbled over: %s) run in one fresh process, every call "
+                "against the same call in another fresh process.  A case is distinct by (equation or conversion, epoch, point or pair, call shape)." %
                 (len(exp["EQN"]), B["MaxLen"], sorted(B["GCA"]), B["BMax"], B["BMax"], sorted(B["MerLons"]), sorted(B["PoleLons"]),
-                 B["MaxD"], "a seeded eighth of the points" if ctx.quick else "all points", len(exp["ANCHOR"]), len(env["triples"])))
+                 B["MaxD"], "a seeded eighth of the points" if ctx.quick else "all points", len(exp["ANCHOR"]), len(env["triples"]),
+                 B["WorldLen"], 52, sorted(B["WorldScr"])))
     ctx.exhaustive = True
     ctx.note(bounds={k: sorted(v) if isinstance(v, set) else v for k, v in B.items()}, parts=list(parts),
              path_equations=len(exp["EQN"]), points_per_frame={k: len(v) + len(env["spts"]) for k, v in env["frames"].items()},
@@ -1278,6 +1520,8 @@ def corrupt(kind, o):
         bad["v"] = bad["v"] + 1
     elif kind == "shiftr":
         bad["on"] = False
+    elif kind == "world":
+        bad["dw"] = CAP
     elif kind == "scale":
         bad["len"] = bad["len"] + 1
     elif kind == "xyz":
